@@ -396,4 +396,203 @@ theorem model_correct (recipe : List Provider) (src dst : LocStack) (ds : InShap
 
 end
 
+/-- the non-model part of `mkCoercer` / `coerceSpec`: iterables, dicts,
+    Optional and the as-is fall-through -/
+theorem mkCoercer_structural (W : World) (recipe : List Provider) (params : List CtxParam) (ctxVals : List Val)
+    (n : Nat)
+    (ih : MkSound (mkCoercer W recipe params n) (coerceSpec W recipe params (pvalsOf params ctxVals) n)
+      (packCtx ctxVals))
+    (sl : Loc) (srest : LocStack) (dl : Loc) (drest : LocStack) (c : Coercer)
+    (h : (match sl.ty, dl.ty with
+          | .iter _ a, .iter o b =>
+            (mkCoercer W recipe params n (gpLoc a 0 :: sl :: srest) (gpLoc b 0 :: dl :: drest)).map
+              (Coercer.iter o.factory)
+          | .dict ka va, .dict kb vb =>
+            match mkCoercer W recipe params n (gpLoc ka 0 :: sl :: srest) (gpLoc kb 0 :: dl :: drest),
+                  mkCoercer W recipe params n (gpLoc va 1 :: sl :: srest) (gpLoc vb 1 :: dl :: drest) with
+            | some k, some v => some (.dict k v)
+            | _, _ => none
+          | .opt a, .opt b =>
+            match mkCoercer W recipe params n (gpLoc a 0 :: sl :: srest) (gpLoc b 0 :: dl :: drest) with
+            | some .asIs => some .asIs
+            | some c => some (.opt c)
+            | none => none
+          | s, d => if W.asIs s d then some .asIs else none) = some c)
+    (v : Val) :
+    applyCoercer c v (packCtx ctxVals) =
+      (match sl.ty, dl.ty, v with
+        | .iter _ a, .iter o b, .seq _ xs =>
+          (xs.mapM (coerceSpec W recipe params (pvalsOf params ctxVals) n (gpLoc a 0 :: sl :: srest)
+            (gpLoc b 0 :: dl :: drest))).map (Val.seq o.factory)
+        | .iter _ _, .iter _ _, _ => none
+        | .dict ka va, .dict kb vb, .dict kvs =>
+          (kvs.mapM (m := Option) (fun (kv : Val × Val) =>
+            match coerceSpec W recipe params (pvalsOf params ctxVals) n (gpLoc ka 0 :: sl :: srest)
+                    (gpLoc kb 0 :: dl :: drest) kv.1,
+                  coerceSpec W recipe params (pvalsOf params ctxVals) n (gpLoc va 1 :: sl :: srest)
+                    (gpLoc vb 1 :: dl :: drest) kv.2 with
+            | some k, some x => some (k, x)
+            | _, _ => none)).map Val.dict
+        | .dict _ _, .dict _ _, _ => none
+        | .opt _, .opt _, .none => some .none
+        | .opt a, .opt b, _ =>
+          coerceSpec W recipe params (pvalsOf params ctxVals) n (gpLoc a 0 :: sl :: srest) (gpLoc b 0 :: dl :: drest) v
+        | _, _, _ => some v) := by
+  generalize sl.ty = st at h ⊢
+  generalize dl.ty = dt at h ⊢
+  cases st <;> cases dt
+  all_goals try (
+    simp only [] at h
+    split at h
+    · cases h; cases v <;> simp [applyCoercer]
+    · cases h)
+  · -- Optional
+    rename_i a b
+    simp only [] at h
+    cases hm : mkCoercer W recipe params n (gpLoc a 0 :: sl :: srest) (gpLoc b 0 :: dl :: drest) with
+    | none => simp [hm] at h
+    | some c' =>
+      have hc' := ih _ _ _ hm
+      cases c' with
+      | asIs =>
+        simp [hm] at h
+        subst h
+        cases v <;> simp [applyCoercer, ← hc']
+      | leaf f => simp [hm] at h; subst h; cases v <;> simp [applyCoercer, ← hc']
+      | model p => simp [hm] at h; subst h; cases v <;> simp [applyCoercer, ← hc']
+      | opt c2 => simp [hm] at h; subst h; cases v <;> simp [applyCoercer, ← hc']
+      | iter k c2 => simp [hm] at h; subst h; cases v <;> simp [applyCoercer, ← hc']
+      | dict k2 v2 => simp [hm] at h; subst h; cases v <;> simp [applyCoercer, ← hc']
+  · -- iterables
+    rename_i o1 a o b
+    simp only [Option.map_eq_some_iff] at h
+    obtain ⟨c', hm, rfl⟩ := h
+    have hc' := ih _ _ _ hm
+    have hfun : (fun x => applyCoercer c' x (packCtx ctxVals)) =
+        coerceSpec W recipe params (pvalsOf params ctxVals) n (gpLoc a 0 :: sl :: srest) (gpLoc b 0 :: dl :: drest) :=
+      funext hc'
+    cases v <;> simp [applyCoercer, hfun]
+  · -- dicts
+    rename_i ka va kb vb
+    simp only [] at h
+    cases hk : mkCoercer W recipe params n (gpLoc ka 0 :: sl :: srest) (gpLoc kb 0 :: dl :: drest) with
+    | none => simp [hk] at h
+    | some ck =>
+      cases hv : mkCoercer W recipe params n (gpLoc va 1 :: sl :: srest) (gpLoc vb 1 :: dl :: drest) with
+      | none => simp [hk, hv] at h
+      | some cv =>
+        simp [hk, hv] at h
+        subst h
+        have hck := ih _ _ _ hk
+        have hcv := ih _ _ _ hv
+        cases v
+        case dict kvs =>
+          simp only [applyCoercer]
+          congr 1
+          apply mapM_congr
+          intro kv _
+          rw [hck, hcv]
+          cases coerceSpec W recipe params (pvalsOf params ctxVals) n (gpLoc ka 0 :: sl :: srest)
+              (gpLoc kb 0 :: dl :: drest) kv.1 <;>
+            cases coerceSpec W recipe params (pvalsOf params ctxVals) n (gpLoc va 1 :: sl :: srest)
+              (gpLoc vb 1 :: dl :: drest) kv.2 <;> rfl
+        all_goals simp [applyCoercer]
+
+/-- every input shape of the class table is well formed -/
+def World.WF (W : World) : Prop := ∀ t s, W.inShape t = some s → ShapeWF s
+
+/-- **Every produced coercer computes the specification** (induction on the fuel). -/
+theorem mkCoercer_correct (W : World) (hW : W.WF) (recipe : List Provider) (params : List CtxParam)
+    (ctxVals : List Val) (hlen : ctxVals.length = params.length) (hnd : (params.map (·.name)).Nodup) :
+    ∀ n, MkSound (mkCoercer W recipe params n)
+      (coerceSpec W recipe params (pvalsOf params ctxVals) n) (packCtx ctxVals)
+  | 0 => by
+    intro s d c h
+    simp [mkCoercer] at h
+  | n + 1 => by
+    have ih := mkCoercer_correct W hW recipe params ctxVals hlen hnd n
+    intro src dst c h v
+    cases src with
+    | nil => simp [mkCoercer] at h
+    | cons sl srest =>
+      cases dst with
+      | nil => simp [mkCoercer] at h
+      | cons dl drest =>
+        simp only [mkCoercer] at h
+        simp only [coerceSpec]
+        cases hu : userCoercer recipe (sl :: srest) (dl :: drest) with
+        | some f =>
+          simp only [hu] at h
+          cases h
+          simp [applyCoercer]
+        | none =>
+          simp only [hu] at h ⊢
+          cases hin : W.inShape dl.ty with
+          | some ds =>
+            cases hout : W.outShape sl.ty with
+            | some ss =>
+              simp only [hin, hout, Option.map_eq_some_iff] at h ⊢
+              obtain ⟨plan, hplan, rfl⟩ := h
+              simp only [applyCoercer]
+              exact model_correct params ctxVals hlen hnd _ _ ih recipe (sl :: srest) (dl :: drest) ds ss
+                (hW _ _ hin) plan hplan v
+            | none =>
+              simp only [hin, hout] at h ⊢
+              exact mkCoercer_structural W recipe params ctxVals n ih sl srest dl drest c h v
+          | none =>
+            simp only [hin] at h ⊢
+            exact mkCoercer_structural W recipe params ctxVals n ih sl srest dl drest c h v
+
+/-! ### binding of the converter's own arguments; store-passing evaluation -/
+
+theorem fillDefaults_length (bound : List (Name × Val)) :
+    ∀ (ps : List SigParam) (vs : List Val), fillDefaults bound ps = some vs → vs.length = ps.length
+  | [], vs, h => by simp [fillDefaults] at h; subst h; rfl
+  | p :: ps, vs, h => by
+    simp only [fillDefaults] at h
+    split at h
+    · rename_i v _
+      cases hr : fillDefaults bound ps with
+      | none => simp [hr] at h
+      | some rest =>
+        simp [hr] at h
+        subst h
+        simp [fillDefaults_length bound ps rest hr]
+    · cases h
+
+
+mutual
+theorem runPlan_eq (st : Store) : ∀ p, runPlan st p = (evalPlan st.data st.ctx p).map (·, st)
+  | .param n => by
+    simp only [runPlan, evalPlan]
+    split <;> simp
+  | .const v => by simp [runPlan, evalPlan]
+  | .call f args => by
+    simp only [runPlan, evalPlan, runArgs_eq st args]
+    cases evalArgs st.data st.ctx args with
+    | none => simp
+    | some vs => simp [runCallee_eq]
+  | .access t a => by
+    simp only [runPlan, evalPlan, runPlan_eq st t]
+    cases evalPlan st.data st.ctx t <;> simp
+theorem runArgs_eq (st : Store) : ∀ args, runArgs st args = (evalArgs st.data st.ctx args).map (·, st)
+  | [] => by simp [runArgs, evalArgs]
+  | (k, p) :: rest => by
+    simp only [runArgs, evalArgs, runPlan_eq st p]
+    cases evalPlan st.data st.ctx p with
+    | none => simp
+    | some v =>
+      simp only [Option.map_some, runArgs_eq st rest]
+      cases evalArgs st.data st.ctx rest <;> simp
+theorem runCallee_eq (st : Store) : ∀ f vs, runCallee st f vs = (applyCallee f vs).map (·, st)
+  | .ctor s, vs => by simp [runCallee, applyCallee]
+  | .func f lit, vs => by
+    simp only [runCallee, applyCallee]
+    split <;> simp
+  | .coercer c, vs => by
+    simp only [runCallee, applyCallee]
+    split <;> simp
+end
+
+
 end Adaptix.Conv13
